@@ -60,3 +60,6 @@ Definition gen_accept (nxyb npoints : Z) : bool := (nxyb =? npoints).
 Definition gen_setsize (x b : Z) : Z * Z * Z * Z := (x, x, b, ((x * x) * b)).
 (* main(): the program quits before the simulation when *)
 Definition gen_main_refuses_gridsize (nx gridsize : Z) : bool := (negb (nx =? gridsize)).
+(* readPhaseSpace: the object the record is read into is constructed with start data? other member calls on it? *)
+Definition gen_read_ctor_passes_data : bool := false.
+Definition gen_read_object_other_calls : Z := 0.
